@@ -19,7 +19,7 @@ ASSUMPTIONS = [
     "empty directories are not tracked (as the statement says) and are not expected back",
 ]
 MONITORS = "independent walk of the fresh location; reloaded Tree listing vs independent listing; reported nfiles/size vs data"
-REQUIRED_COUNTERS = ["restaged_after_checkout", "roundtrips", "files_compared", "route/object", "route/index-explicit", "route/index-lazy", "single_file_cases",
+REQUIRED_COUNTERS = ["second_generation_roundtrips", "dirs_with_several_large_files", "restaged_after_checkout", "roundtrips", "files_compared", "route/object", "route/index-explicit", "route/index-lazy", "single_file_cases",
                      "store/local", "store/base", "link/hardlink", "link/symlink", "link/copy", "link/default", "with_state", "listing_reloads"]
 
 
@@ -52,6 +52,14 @@ def run_shard(ctx):
                     route = "index-explicit"
             else:
                 files, empties = gen.tree(rng, depth=rng.randrange(0, 5), fanout=4, odd=0.35, dup=0.4, min_files=1, big=big)
+                if rng.random() < 0.06:
+                    base = rng.choice([()] + sorted({k[:-1] for k in files}))
+                    for j, c in enumerate(gen.big_files(rng)):
+                        files[(*base, f"big{j}")] = c
+                    if rng.random() < 0.5:
+                        # the same large contents once more elsewhere
+                        files[("copy-of-big",)] = files[(*base, "big0")]
+                    res.count("dirs_with_several_large_files")
             src = os.path.join(d, "src")
             out = os.path.join(d, "out", "x")
             os.makedirs(os.path.dirname(out))
@@ -164,6 +172,29 @@ def run_shard(ctx):
                 if obj2.hash_info.value != obj.hash_info.value:
                     res.violation("restaging-the-checkout-gives-another-object" + ("/with-state" if use_state else ""),
                                   f"stage(checkout(x)) = {obj2.hash_info.value}, x = {obj.hash_info.value}", case=case, detail=cfgd)
+            if got == exp and not single and use_state and rng.random() < 0.5:
+                same = {}
+                for k, v in files.items():
+                    same.setdefault(len(v), []).append(k)
+                pairs = [ks for ks in same.values() if len(ks) >= 2 and files[ks[0]] != files[ks[1]]]
+                if pairs:
+                    res.count("second_generation_roundtrips")
+                    a, b = pairs[0][0], pairs[0][1]
+                    pa, pb = os.path.join(src, *a), os.path.join(src, *b)
+                    st = os.stat(pa)
+                    os.utime(pb, ns=(st.st_atime_ns, st.st_mtime_ns))  # e.g. unpacked from one archive: identical mtimes
+                    os.replace(pa, pa + ".swap")
+                    os.replace(pb, pa)
+                    os.replace(pa + ".swap", pb)
+                    files2 = dict(files)
+                    files2[a], files2[b] = files[b], files[a]
+                    _st2, _meta2, objg2, r2 = env.stage_and_transfer(odb, src)
+                    out2 = os.path.join(d, "out2", "x")
+                    os.makedirs(os.path.dirname(out2))
+                    checkout(out2, fs, objg2, odb, force=True, state=state)
+                    if walk_files(out2) != files2:
+                        res.violation("second-generation-roundtrip-differs", "after two equal-sized files were swapped by rename (mtimes preserved) and the tree staged again "
+                                      "through the same hash-state cache, checkout does not reproduce the data", case=case, detail=cfgd)
             if not single:
                 # no path invented as a directory either
                 inv = sorted(dk for dk in walk_dirs(out) if dk not in indexlab.dirs_of(files))
